@@ -288,6 +288,24 @@ impl Zone {
         Ok((dd, time))
     }
 
+    /// Do the instants whose local reading falls on the day starting at `local_midnight` form one
+    /// uninterrupted stretch of the timeline? (Not when a forward change of about a day is reverted soon after.)
+    pub fn date_is_contiguous(&self, local_midnight: i128) -> bool {
+        let day_end = local_midnight + NS_PER_DAY;
+        let mut parts: Vec<(i128, i128)> = vec![];
+        for k in 0..=self.trans.len() {
+            let start = if k == 0 { i128::MIN / 4 } else { self.trans[k - 1].0 };
+            let end = if k == self.trans.len() { i128::MAX / 4 } else { self.trans[k].0 };
+            let off = if k == 0 { self.initial } else { self.trans[k - 1].1 } as i128 * 1_000_000_000;
+            let (a, b) = (start.max(local_midnight - off), end.min(day_end - off));
+            if a < b {
+                parts.push((a, b));
+            }
+        }
+        parts.sort();
+        parts.windows(2).all(|w| w[0].1 == w[1].0)
+    }
+
     /// First instant of the local calendar day that contains `t`.
     pub fn start_of_day_of(&self, t: i128) -> Option<i128> {
         let (day, _) = split(self.local_of(t));
